@@ -1,0 +1,14 @@
+//go:build verif
+
+package mlog
+
+// Contracts for the deductive checker in /verif (comment-only file, no declarations).
+
+//@ func L() (lg *zerolog.Logger)
+//@   trusted
+//@   modifies nothing
+//@   ensures lg != nil
+//@ func Nop() (lg *zerolog.Logger)
+//@   trusted
+//@   modifies nothing
+//@   ensures lg != nil
